@@ -109,7 +109,7 @@ func VerifEvents() {
 			data := vEval(svc.schema, w, doc.Operations[0].SelectionSet, "Subscription", nil, nil)
 			msg := vServerData("1", data)
 			if partial {
-				msg, _ = json.Marshal(map[string]interface{}{"type": "data", "id": "1", "payload": map[string]interface{}{"data": data, "errors": []interface{}{map[string]interface{}{"message": "partial " + subs[n].id}}}})
+				msg, _ = json.Marshal(map[string]interface{}{"type": "data", "id": "1", "payload": map[string]interface{}{"data": data, "errors": []interface{}{map[string]interface{}{"message": "partial " + subs[n].id, "extensions": map[string]interface{}{"code": "E7"}, "path": []interface{}{"humanChanged", "age"}}}}})
 			}
 			if !up.vSend(msg) {
 				return
@@ -175,6 +175,13 @@ func VerifEvents() {
 				// shows of the data never includes helper fields the client did not select
 				errs, _ := p["errors"].([]interface{})
 				verifAssert(len(errs) > 0, "the errors of a partial event are forwarded")
+				if len(errs) > 0 {
+					e0, _ := errs[0].(map[string]interface{})
+					ext, _ := e0["extensions"].(map[string]interface{})
+					pth, _ := e0["path"].([]interface{})
+					verifAssert(len(errs) == 1 && e0["message"] == "partial "+s.id && ext != nil && ext["code"] == "E7" && len(pth) == 2 && pth[0] == "humanChanged" && pth[1] == "age",
+						"the error of a partial event keeps its message, extensions and path")
+				}
 				if d, ok := p["data"].(map[string]interface{}); ok {
 					if hc, ok := d["humanChanged"].(map[string]interface{}); ok {
 						_, hasID := hc["id"]
